@@ -284,8 +284,9 @@ type workerOut struct {
 }
 
 type stats struct {
-	C       map[string]int64 `json:"counters"`
-	MaxLimb uint64           `json:"max_limb"`
+	C       map[string]int64  `json:"counters"`
+	MaxLimb uint64            `json:"max_limb"`
+	Cov     map[string][]byte `json:"cov,omitempty"`
 }
 
 func (s *stats) merge(o *stats) {
@@ -298,6 +299,32 @@ func (s *stats) merge(o *stats) {
 	if o.MaxLimb > s.MaxLimb {
 		s.MaxLimb = o.MaxLimb
 	}
+	for k, b := range o.Cov {
+		if s.Cov == nil {
+			s.Cov = map[string][]byte{}
+		}
+		if s.Cov[k] == nil {
+			s.Cov[k] = make([]byte, len(b))
+		}
+		for i := range b {
+			s.Cov[k][i] |= b[i]
+		}
+	}
+}
+
+// covSummary counts the bits set in each coverage set.
+func covSummary(cov map[string][]byte) map[string]int {
+	out := map[string]int{}
+	for k, b := range cov {
+		n := 0
+		for _, x := range b {
+			for ; x != 0; x &= x - 1 {
+				n++
+			}
+		}
+		out[k] = n
+	}
+	return out
 }
 
 type runResult struct {
@@ -901,6 +928,7 @@ func writeEvidence(ca *checkArgs, plan *histPlan, b *batch, perBuild map[string]
 		"observed":                            observed,
 		"reach_probes":                        probes,
 		"max_limb_observed":                   fmt.Sprintf("0x%x", b.stats.MaxLimb),
+		"recoding_pairs_covered":              covSummary(b.stats.Cov),
 		"distinct_call_shapes_or_fault_sites": sitesSummary(b.stats.C),
 		"unreached_required":                  unreached,
 		"runs_ended_early_by_violation_of_other_property": countPrefix(b.stats.C, "runs_ended_by_foreign_violation/"),
